@@ -346,6 +346,9 @@ def run_impl(sc, url="ws://example.test/chat", ws_kwargs=None, check_alias=True)
                   ping_timeout=None if cfg["ping_timeout"] is None else cfg["ping_timeout"] / TICK,
                   auto_pong=cfg["auto_pong"],
                   close_timeout=None if cfg["close_timeout"] is None else cfg["close_timeout"] / TICK)
+        if sc.get("int_seconds"):
+            # the same configuration with whole numbers of seconds given as int rather than float
+            kw = {k: (int(v) if isinstance(v, float) and v == int(v) else v) for k, v in kw.items()}
         app = sc.get("app", {})
         idx = [0]
 
